@@ -709,3 +709,93 @@ Proof.
     split; [apply split_ok|]. destruct nb as [|y t]; [congruence|]. cbn [split_nalu ndata].
     rewrite lenN_cons in Hlen. exact Hlen.
 Qed.
+
+(* ---- histories on several AVC objects ---- *)
+Lemma slot_get_set_same s k v : slot_get (slot_set s k v) k = Some v.
+Proof.
+  induction s as [|[k' v'] t IH]; cbn [slot_set slot_get].
+  - rewrite N.eqb_refl. reflexivity.
+  - destruct (N.eqb_spec k' k) as [->|Hne]; cbn [slot_get].
+    + rewrite N.eqb_refl. reflexivity.
+    + destruct (N.eqb_spec k' k); [contradiction|]. exact IH.
+Qed.
+
+Lemma slot_get_set_other s k v k' : k' <> k -> slot_get (slot_set s k v) k' = slot_get s k'.
+Proof.
+  intros Hne. induction s as [|[k0 v0] t IH]; cbn [slot_set slot_get].
+  - destruct (N.eqb_spec k k'); [congruence|reflexivity].
+  - destruct (N.eqb_spec k0 k) as [->|H0]; cbn [slot_get].
+    + destruct (N.eqb_spec k k'); [congruence|reflexivity].
+    + destruct (N.eqb_spec k0 k'); [reflexivity|exact IH].
+Qed.
+
+Lemma avc_run_app s ops1 ops2 :
+  avc_run s (ops1 ++ ops2) =
+  (fst (avc_run (fst (avc_run s ops1)) ops2), snd (avc_run s ops1) ++ snd (avc_run (fst (avc_run s ops1)) ops2)).
+Proof.
+  revert s. induction ops1 as [|op ops1 IH]; intros s; cbn [app avc_run fst snd].
+  - destruct (avc_run s ops2); reflexivity.
+  - destruct (avc_step s op) as [s1 o]. rewrite IH.
+    destruct (avc_run s1 ops1) as [s2 os]. cbn [fst snd]. destruct (avc_run s2 ops2); reflexivity.
+Qed.
+
+(* MarshalBinary after ANY history returns the marshalling of the object's current value and
+   changes no object *)
+Lemma avc_history_marshal s ops k v :
+  slot_get (fst (avc_run s ops)) k = Some v ->
+  avc_run s (ops ++ [AMarshal k]) = (fst (avc_run s ops), snd (avc_run s ops) ++ [SL [SZ 0; SB (obj_marshal v)]]).
+Proof. intros H. rewrite avc_run_app. cbn [avc_run avc_step fst snd]. rewrite H. reflexivity. Qed.
+
+Lemma avc_history_marshal2 s ops k1 k2 v1 v2 :
+  slot_get (fst (avc_run s ops)) k1 = Some v1 -> slot_get (fst (avc_run s ops)) k2 = Some v2 ->
+  avc_run s (ops ++ [AMarshal2 k1 k2]) =
+  (fst (avc_run s ops), snd (avc_run s ops) ++ [SL [SZ 0; SB (obj_marshal v1); SB (obj_marshal v2)]]).
+Proof. intros H1 H2. rewrite avc_run_app. cbn [avc_run avc_step fst snd]. rewrite H1, H2. reflexivity. Qed.
+
+(* an operation touches only its own object *)
+Lemma avc_step_other s op k' : k' <> op_slot op -> slot_get (fst (avc_step s op)) k' = slot_get s k'.
+Proof.
+  intros Hne. destruct op; cbn [avc_step op_slot] in *;
+  repeat match goal with
+         | |- context [match slot_get ?s ?k with _ => _ end] => destruct (slot_get s k) as [[?|?|? ?]|]
+         | |- context [match nalu_unmarshal ?d with _ => _ end] => destruct (nalu_unmarshal d)
+         | |- context [let (_, _) := ?x in _] => destruct x
+         | |- context [match obj_update ?v ?o with _ => _ end] => destruct (obj_update v o)
+         end; cbn [fst]; try reflexivity; apply slot_get_set_other; exact Hne.
+Qed.
+
+(* a field assignment replaces the object's value by the pure update of it *)
+Definition is_update (op : avc_op) : bool :=
+  match op with ASetNalu _ _ | ASetElem _ _ _ _ | AAppend _ _ _ | AClear _ _ | ASetScalars _ _ _ _ _ _ => true | _ => false end.
+
+Lemma avc_step_update s op v v' :
+  is_update op = true -> slot_get s (op_slot op) = Some v -> obj_update v op = Some v' ->
+  avc_step s op = (slot_set s (op_slot op) v', SL [SZ 0]).
+Proof.
+  intros Hu Hg Hup. destruct op; try discriminate; cbn [avc_step op_slot] in *; rewrite Hg, Hup; reflexivity.
+Qed.
+
+(* the ISO layout of an object's current field values *)
+Definition obj_in_range (v : avc_obj) : Prop :=
+  match v with
+  | ONalu n => nalu_ok n
+  | ORec r => r_ver r < 256 /\ r_prof r < 256 /\ r_compat r < 256 /\ r_level r < 256 /\ r_lsm1 r < 4 /\
+              countN (r_sps r) < 32 /\ countN (r_pps r) < 256 /\ Forall nalu_set_ok (r_sps r) /\ Forall nalu_set_ok (r_pps r)
+  | OSample l ns => l < 4 /\ Forall (nalu_fits (l + 1)) ns
+  end.
+
+Definition obj_spec (v : avc_obj) : bytes :=
+  match v with
+  | ONalu n => spec_nalu_bytes n
+  | ORec r => spec_record (r_ver r) (r_prof r) (r_compat r) (r_level r) (r_lsm1 r)
+                          (map spec_nalu_bytes (r_sps r)) (map spec_nalu_bytes (r_pps r))
+  | OSample l ns => spec_sample l (map spec_nalu_bytes ns)
+  end.
+
+Lemma obj_marshal_spec v : obj_in_range v -> obj_marshal v = obj_spec v.
+Proof.
+  destruct v as [n|r|l ns]; cbn [obj_in_range obj_marshal obj_spec].
+  - intros H. symmetry. apply spec_nalu_is_marshal. exact H.
+  - intros (Hv & Hp & Hc & Hl & Hs & Hns & Hnp & Fs & Fp). apply rec_marshal_spec; assumption.
+  - intros [Hl F]. apply sample_marshal_spec; assumption.
+Qed.
